@@ -25,9 +25,12 @@ pub struct PairAgent {
     c: CommandLane<Act>,
     /// a lane whose value can have the empty encoding (`None`); it starts at `Some(7)` so that
     /// "nothing stored" and "the empty value stored" are different states
-    o: ValueLane<Option<i32>>,
+    /// (external names `o` and `om`, different from the field names the lifecycle is labelled with)
+    #[item(name = "o")]
+    opt_lane: ValueLane<Option<i32>>,
     /// a map lane whose values can have the empty encoding
-    om: MapLane<i32, Option<i32>>,
+    #[item(name = "om")]
+    opt_map: MapLane<i32, Option<i32>>,
 }
 
 /// Ordinal of the field `o` (its item id in the derived model).
@@ -47,8 +50,8 @@ impl PairLifecycle {
             .get_value(PairAgent::V)
             .and_then(move |v| context.get_value(PairAgent::W).map(move |w| (v, w)))
             .and_then(move |(v, w)| context.get_value(PairAgent::VS).map(move |vs| (v, w, vs)))
-            .and_then(move |(v, w, vs)| context.get_value(PairAgent::O).map(move |o| (v, w, vs, o)))
-            .and_then(move |(v, w, vs, o)| context.get_map(PairAgent::OM).map(move |om| (v, w, vs, o, om)))
+            .and_then(move |(v, w, vs)| context.get_value(PairAgent::OPT_LANE).map(move |o| (v, w, vs, o)))
+            .and_then(move |(v, w, vs, o)| context.get_map(PairAgent::OPT_MAP).map(move |om| (v, w, vs, o, om)))
             .and_then(move |(v, w, vs, o, om): (i32, i32, i32, Option<i32>, std::collections::HashMap<i32, Option<i32>>)| {
                 context.effect(move || {
                     log.push(Truth::Start { v, w, t: 0, vs, m: vec![], ms: vec![] });
@@ -61,7 +64,7 @@ impl PairLifecycle {
             })
     }
 
-    #[on_set(o)]
+    #[on_set(opt_lane)]
     pub fn on_set_o(&self, context: HandlerContext<PairAgent>, new: &Option<i32>, _prev: Option<Option<i32>>) -> impl EventHandler<PairAgent> {
         let (log, new) = (self.log.clone(), *new);
         context.effect(move || log.push(Truth::Custom(format!("set:o={}", new.map(|x| x.to_string()).unwrap_or_default()))))
@@ -103,11 +106,11 @@ impl PairLifecycle {
                 Simple::SetW(x) => Box::new(context.set_value(PairAgent::W, x)),
                 Simple::SetVs(x) => Box::new(context.set_value(PairAgent::VS, x)),
                 Simple::SetWs(x) => Box::new(context.set_value(PairAgent::WS, x)),
-                Simple::SetO(x) => Box::new(context.set_value(PairAgent::O, Some(x))),
-                Simple::ClrO => Box::new(context.set_value(PairAgent::O, None)),
-                Simple::UpdOm { k, v } => Box::new(context.update(PairAgent::OM, k, Some(v))),
-                Simple::NilOm(k) => Box::new(context.update(PairAgent::OM, k, None)),
-                Simple::RemOm(k) => Box::new(context.remove(PairAgent::OM, k)),
+                Simple::SetO(x) => Box::new(context.set_value(PairAgent::OPT_LANE, Some(x))),
+                Simple::ClrO => Box::new(context.set_value(PairAgent::OPT_LANE, None)),
+                Simple::UpdOm { k, v } => Box::new(context.update(PairAgent::OPT_MAP, k, Some(v))),
+                Simple::NilOm(k) => Box::new(context.update(PairAgent::OPT_MAP, k, None)),
+                Simple::RemOm(k) => Box::new(context.remove(PairAgent::OPT_MAP, k)),
                 _ => Box::new(context.effect(|| ())),
             };
             handlers.push(h);
@@ -121,7 +124,7 @@ pub fn make(truth: Arc<TruthLog>) -> swimos_api::agent::BoxAgent {
     let lifecycle = PairLifecycle { log: truth };
     fn agent() -> PairAgent {
         let mut a = PairAgent::default();
-        a.o = ValueLane::new(O_ORDINAL, Some(7));
+        a.opt_lane = ValueLane::new(O_ORDINAL, Some(7));
         a
     }
     Box::new(AgentModel::new(agent, lifecycle.into_lifecycle()))
